@@ -4,8 +4,10 @@ set -u
 id="$1"; prop="$2"; scale="${3:-1}"
 out="/verif/seeded/$id"
 cd /repo && git apply "$out/patch.diff" || { echo "patch does not apply"; exit 2; }
+rm -rf /verif/.evidence.keep; cp -r /verif/evidence /verif/.evidence.keep
 ( cd /verif && VERIF_SCALE="$scale" ./check "$prop" quick ) > "$out/check_output.txt" 2>&1; rc=$?
 git -C /repo checkout -- .
+rm -rf /verif/evidence; mv /verif/.evidence.keep /verif/evidence   # evidence files must only ever come from the unchanged tree
 echo "$id: check $prop quick (scale $scale): rc=$rc"
 grep -E "^violation:|^detail:|harness error" "$out/check_output.txt" | cut -c1-500
 python3 - "$out/confirm.json" "$prop" "$rc" <<'PY'
